@@ -50,7 +50,7 @@ def build_step(R, H, with_inv=True, validate=1):
         try:
             s_np, a_np = S.model_tree(m, st), S.model_sv(m, act)
             out = C.real_step(H.env, s_np, a_np)
-            S.differential(R, type(H.env).__name__ + ".step", (st, act), (ns, ts), out, (s_np, a_np))
+            S.differential(R, type(H.env).__name__ + ".step", (st, act), (ns, ts), out, (s_np, a_np), ulps=getattr(H, "DIFF_ULPS", 0))
             R.sample({"config": H.cfg, "pre_state_from_solver": _brief(s_np), "action": np.asarray(a_np).tolist()})
         except Exception as e:  # noqa
             R.harness_errors.append(f"{R.job}: differential validation crashed: {e!r}")
@@ -71,6 +71,10 @@ def step_replay(sp, obl_fn, name):
 
     def replay(model):
         s_np, a_np = S.model_tree(model, sp.st), S.model_sv(model, sp.act)
+        if hasattr(H, "replay_state"):
+            # optional hook (DESIGN 1.5, random draws): the harness swaps the model's PRNG key for a REAL key whose
+            # real draws equal the model's stub draws (e.g. Tetris' next piece), so that the replay exercises the same case
+            s_np = H.replay_state(model, sp, s_np, a_np)
         ns, ts = C.real_step(H.env, s_np, a_np)
         cs, ca, cns, cts = S.conc_tree(s_np), SV(np.asarray(a_np), sp.act.dtype), S.conc_tree(ns), S.conc_tree(ts)
         vals = dict(obl_fn(cs, ca, cns, cts))
@@ -117,7 +121,9 @@ def inv_step(R, sp, prefix="Inv(S')"):
 
 def inv_reset(R, H, nkeys=256):
     """Inv(reset(key)) for a symbolic key under the jax.random stubs"""
-    ctx = Ctx(max_unroll=max(H.UNROLL, 20))
+    # RESET_UNROLL (optional harness attribute): a tighter loop bound for reset than the default 20; sound because the
+    # unwinding assertion below stays an obligation (Maze 3x5: 6 iterations suffice and the queries get ~3x cheaper)
+    ctx = Ctx(max_unroll=getattr(H, "RESET_UNROLL", None) or max(H.UNROLL, 20))
     key = ctx.fresh_arr("key", (2,), np.uint32)
     st, ts = S.call(ctx, H.env.reset, key, R=R, name=type(H.env).__name__ + ".reset")
     R.nvars += 2 + len(ctx.assumptions)
@@ -141,7 +147,7 @@ def spec_bounds_obl(spec_tree, obs_tree):
     """[(name, V)] every leaf of obs_tree within the bounds of the matching spec leaf"""
     from jumanji import specs
     out = []
-    if isinstance(spec_tree, specs.Array) and not isinstance(spec_tree, specs.Spec):
+    if isinstance(spec_tree, specs.Array):  # NB: specs.Array IS a subclass of specs.Spec (leaf spec)
         sv = obs_tree
         sp = spec_tree
         arr = vs(sv)
@@ -183,7 +189,7 @@ def spec_struct_ok(spec_tree, shape_tree):
     """structure/shape/dtype agreement between a spec tree and the avals of an output tree; -> list of mismatch strings"""
     from jumanji import specs
     bad = []
-    if isinstance(spec_tree, specs.Array) and not isinstance(spec_tree, specs.Spec):
+    if isinstance(spec_tree, specs.Array):  # NB: specs.Array IS a subclass of specs.Spec (leaf spec)
         sh, dt = tuple(shape_tree.shape), np.dtype(shape_tree.dtype)
         if sh != tuple(spec_tree.shape) or dt != np.dtype(spec_tree.dtype):
             bad.append(f"{spec_tree.name}: emitted {dt}{list(sh)} vs spec {np.dtype(spec_tree.dtype)}{list(spec_tree.shape)}")
